@@ -82,6 +82,19 @@ EDGE_TYPES = {
 }
 SOURCE = os.path.join('cai_causal_graph', 'identify_utils.py')
 
+# The generated files, in dependency order: (file name, the target functions it contains, property).  A function nested
+# in a target goes to the file of that target.  A file imports the earlier files whose functions it calls.
+FILES = [
+    ('IdentifyGenConf', ['_verify_identify_inputs', 'identify_confounders'], 'C18'),
+    ('IdentifyGenIM', ['identify_instruments', 'identify_mediators'], 'C19'),
+    ('IdentifyGenMB', ['identify_markov_boundary', 'identify_colliders'], 'C20'),
+]
+DEFAULT_OUTPUT_DIR = '/verif/coq/theories'
+# Every generated function takes the same leading parameters (whether it uses them or not), so that the way a function
+# is called never depends on what its body happens to mention.
+GEN_PARAMS = '{A : Type} (eqb : A -> A -> bool) (py_None py_empty_str : A) (py_order : pyorder)'
+GEN_ARGS = 'eqb py_None py_empty_str py_order'
+
 # expected imports (anything else at module level is refused)
 ALLOWED_IMPORTS = {
     ('import', 'networkx'),
@@ -214,6 +227,7 @@ class Translator:
         self.funcs = {}           # name -> FuncInfo, in emission order
         self.order = []
         self.tmp = 0
+        self.failures = {}        # target / nested function -> reason (the first one)
 
     # ------------------------------------------------------------------------------------------------ module level
     def scan_module(self):
@@ -239,12 +253,36 @@ class Translator:
                 seen.add(st.name)
             else:
                 raise Unsupported(st, f'unsupported module-level statement {type(st).__name__}')
-        defs = {st.name: st for st in body if isinstance(st, ast.FunctionDef)}
+        return {st.name: st for st in body if isinstance(st, ast.FunctionDef)}
+
+    def drop(self, name, why):
+        """Record the failure of a function and forget it (with the functions nested in it, and the function it is
+        nested in): every later call of it is then a call of an unknown function, which fails the caller."""
+        if name not in self.failures:
+            self.failures[name] = why
+        info = self.funcs.pop(name, None)
+        if name in self.order:
+            self.order.remove(name)
+        if info is not None and info.nested_in is not None and info.nested_in.name in self.funcs:
+            self.drop(info.nested_in.name, f'its nested function {name} could not be translated')
+        for other in [f for f in self.funcs.values() if f.nested_in is not None and f.nested_in.name == name]:
+            self.funcs.pop(other.name, None)
+            if other.name in self.order:
+                self.order.remove(other.name)
+
+    def register_targets(self, defs):
         for name in TARGETS:
             if name not in defs:
-                raise Unsupported(self.tree, f'target function {name} not found')
-        for name in TARGETS:
-            self.register(defs[name], None)
+                self.failures[name] = '?: target function not found'
+                continue
+            before = list(self.order)
+            try:
+                self.register(defs[name], None)
+            except Unsupported as ex:
+                for n in [n for n in self.order if n not in before]:
+                    self.funcs.pop(n, None)
+                self.order = before
+                self.failures[name] = str(ex)
 
     def register(self, node, nested_in):
         if node.decorator_list:
@@ -298,21 +336,32 @@ class Translator:
             stack.extend(ast.iter_child_nodes(n))
         return out
 
-    def analyse(self):
-        # call graph, recursion, fuel
+    def call_graph(self):
         for info in self.funcs.values():
+            info.calls = set()
             for n in self.own_nodes(info):
                 if isinstance(n, ast.Call) and isinstance(n.func, ast.Name) and n.func.id in self.funcs:
                     info.calls.add(n.func.id)
             info.recursive = info.name in info.calls
+
+    def analyse(self):
+        # call graph, recursion, fuel
+        self.call_graph()
         # no mutual recursion: every callee other than the function itself must be emitted earlier
+        bad = {}
         for i, name in enumerate(self.order):
-            for c in self.funcs[name].calls:
+            info = self.funcs[name]
+            for c in info.calls:
                 if c != name and self.order.index(c) > i:
-                    raise Unsupported(self.funcs[name].node, f'{name} calls {c}, which is defined later '
-                                      '(mutual / forward recursion is not supported)')
+                    bad[name] = str(Unsupported(info.node, f'{name} calls {c}, which is defined later '
+                                                '(mutual / forward recursion is not supported)'))
                 if c != name and self.funcs[c].nested_in is not None and self.funcs[c].nested_in.name != name:
-                    raise Unsupported(self.funcs[name].node, f'{name} calls {c}, which is local to another function')
+                    bad[name] = str(Unsupported(info.node, f'{name} calls {c}, which is local to another function'))
+            if info.recursive and info.ret_kind is None:
+                bad[name] = str(Unsupported(info.node, 'a recursive function needs a return annotation'))
+        for name, why in bad.items():
+            self.drop(name, why)
+        self.call_graph()
         for name in self.order:
             info = self.funcs[name]
             info.needs_fuel = info.recursive or any(self.funcs[c].needs_fuel for c in info.calls if c != name)
@@ -325,9 +374,6 @@ class Translator:
                 if m != info.mutated:
                     info.mutated = m
                     changed = True
-        for info in self.funcs.values():
-            if info.recursive and info.ret_kind is None:
-                raise Unsupported(info.node, 'a recursive function needs a return annotation')
 
     def mutated_params(self, info):
         params = [p for p, _, _ in info.params]
@@ -896,7 +942,7 @@ class Translator:
             fuel = "fuel' " if self.cur.recursive else 'fuel '
         name = hint or self.fresh()
         pat = self.tuple_pat(rebound + [name]) if rebound else name
-        self.bind(e, fx, pat, f'gen_{callee.name} {fuel}' + ' '.join(texts))
+        self.bind(e, fx, pat, f'gen_{callee.name} {GEN_ARGS} {fuel}' + ' '.join(texts))
         kind = callee.ret_kind if callee.ret_kind is not None else UNKNOWN
         return name, kind, True
 
@@ -1353,7 +1399,7 @@ class Translator:
         elif ' ' in rty and not rty.startswith('('):
             rty = f'({rty})'
         fuel = '(fuel : nat) ' if info.needs_fuel else ''
-        head = f'gen_{info.name} {fuel}' + ' '.join(params)
+        head = f'gen_{info.name} {GEN_PARAMS} {fuel}' + ' '.join(params)
         where = f' (nested in {info.nested_in.name})' if info.nested_in is not None else ''
         doc = f'(** [{info.name}]{where}, lines {info.node.lineno}-{info.node.end_lineno} of identify_utils.py.'
         if info.mutated:
@@ -1368,67 +1414,118 @@ class Translator:
         return text
 
     def run(self):
-        self.scan_module()
+        """Translate what can be translated.  Returns {function name: Coq text}; the functions that could not be
+        translated are in self.failures.  Raises Unsupported only for module-level problems."""
+        defs = self.scan_module()
+        self.register_targets(defs)
         self.analyse()
-        parts = [self.function(self.funcs[name]) for name in self.order]
-        return parts
+        texts = {}
+        for name in list(self.order):
+            if name not in self.funcs:
+                continue
+            try:
+                texts[name] = self.function(self.funcs[name])
+            except Unsupported as ex:
+                self.drop(name, str(ex))
+        # a function whose enclosing function was dropped is not emitted either
+        return {n: t for n, t in texts.items() if n in self.funcs}
 
 
-def fail_closed(out):
-    """Nothing is written; a stale output of an earlier run is removed so that it cannot be compiled by mistake."""
+def remove_stale(path):
+    """A file that is not (re)written must not survive from an earlier run: it could be compiled by mistake."""
     try:
-        if os.path.isfile(out):
-            os.remove(out)
+        if os.path.isfile(path):
+            os.remove(path)
     except OSError:
         pass
-    return 2
+
+
+def file_text(fname, prop, members, imports, texts):
+    header = (
+        f'(** {fname}.v -- GENERATED by /verif/tools/translate_identify.py from\n'
+        f'    cai_causal_graph/identify_utils.py (property {prop}).  DO NOT EDIT: the file is regenerated on every\n'
+        '    verification run.  One Gallina function per Python function, statement by statement (the comments quote\n'
+        '    the first line of each Python statement); the runtime is PyRt.v, whose header documents the mapping.\n'
+        '    Every function takes the same leading parameters: the equality test on identifiers, the values standing\n'
+        '    for [None] and for the empty string, and the order [py_order] in which sets (and the collections that the\n'
+        '    library builds from sets / dictionaries) are iterated: an arbitrary function, chosen per observation site. *)\n'
+        'From CG Require Import Base Digraph Identify Markov PyRt' + ''.join(' ' + i for i in imports) + '.\n\n'
+    )
+    return header + '\n\n'.join(texts[m] for m in members) + '\n'
 
 
 def main(argv):
-    if len(argv) != 3:
-        sys.stderr.write(__doc__.split('\n\n')[1] + '\n')
+    if len(argv) not in (2, 3):
+        sys.stderr.write('usage: translate_identify.py <repo_root> [<output_dir>=' + DEFAULT_OUTPUT_DIR + ']\n')
         return 2
-    root, out = argv[1], argv[2]
+    root = argv[1]
+    outdir = argv[2] if len(argv) == 3 else DEFAULT_OUTPUT_DIR
+    outs = {fname: os.path.join(outdir, fname + '.v') for fname, _, _ in FILES}
+    if not os.path.isdir(outdir):
+        sys.stderr.write(f'translate_identify: FAIL: {outdir} is not a directory\n')
+        return 2
     path = os.path.join(root, SOURCE)
     try:
         with open(path, 'r', encoding='utf-8') as fh:
             src = fh.read()
         tree = ast.parse(src, filename=path)
         tr = Translator(tree, src)
-        parts = tr.run()
+        texts = tr.run()
     except Unsupported as ex:
-        sys.stderr.write(f'translate_identify: FAIL: {path}:{ex}\n')
-        return fail_closed(out)
+        sys.stderr.write(f'translate_identify: FAIL: {path}:{ex} [module level: no file is written]\n')
+        for o in outs.values():
+            remove_stale(o)
+        return 2
     except (OSError, SyntaxError, RecursionError, ValueError) as ex:
-        sys.stderr.write(f'translate_identify: FAIL: {path}: {ex}\n')
-        return fail_closed(out)
-    header = (
-        '(** IdentifyGen.v -- GENERATED by /verif/tools/translate_identify.py from\n'
-        '    cai_causal_graph/identify_utils.py.  DO NOT EDIT: the file is regenerated on every verification run.\n'
-        '    One Gallina function per Python function, statement by statement (the comments quote the first line of\n'
-        '    each Python statement); the runtime is PyRt.v, whose header documents the mapping. *)\n'
-        'From CG Require Import Base Digraph Identify Markov PyRt.\n'
-        'Set Implicit Arguments.\n\n'
-        'Section IdentifyGen.\n'
-        '  Variable A : Type.\n'
-        '  Variable eqb : A -> A -> bool.\n'
-        '  (** the values standing for [None] and for the empty string *)\n'
-        '  Variable py_None : A.\n'
-        '  Variable py_empty_str : A.\n'
-        '  (** the order in which sets (and the collections that the library builds from sets / dictionaries) are\n'
-        '      iterated: an arbitrary permutation, chosen per observation site *)\n'
-        '  Variable py_order : pyorder.\n\n'
-    )
-    text = header + '\n\n'.join(Translator.indent(p) for p in parts) + '\nEnd IdentifyGen.\n'
-    if len(text) > MAX_OUTPUT_CHARS:
-        sys.stderr.write(f'translate_identify: FAIL: {path}: the generated text is too large '
-                         '(continuation duplication)\n')
-        return fail_closed(out)
-    tmp = out + '.tmp'
-    with open(tmp, 'w', encoding='utf-8') as fh:
-        fh.write(text)
-    os.replace(tmp, out)
-    return 0
+        sys.stderr.write(f'translate_identify: FAIL: {path}: {ex} [no file is written]\n')
+        for o in outs.values():
+            remove_stale(o)
+        return 2
+    # which file each translated function belongs to
+    home = {}
+    for fname, targets, _ in FILES:
+        for t in targets:
+            home[t] = fname
+    for name, info in tr.funcs.items():
+        if info.nested_in is not None:
+            home[name] = home[info.nested_in.name]
+    ok, status = {}, 0
+    for idx, (fname, targets, prop) in enumerate(FILES):
+        reasons = [f'{t}: {tr.failures[t]}' for t in targets if t in tr.failures or t not in texts]
+        members = [n for n in tr.order if home.get(n) == fname and n in texts]
+        imports = []
+        for m in members:
+            for c in sorted(tr.funcs[m].calls):
+                h = home[c]
+                if h != fname and h not in imports:
+                    imports.append(h)
+        earlier = [f for f, _, _ in FILES[:idx]]
+        for h in imports:
+            if h not in earlier:
+                reasons.append(f'it would have to import {h}, which comes later')
+            elif not ok.get(h, False):
+                reasons.append(f'it depends on {h}.v, which is not written')
+        imports = [f for f in earlier if f in imports]
+        text = file_text(fname, prop, members, imports, texts) if not reasons else ''
+        if not reasons and len(text) > MAX_OUTPUT_CHARS:
+            reasons.append('the generated text is too large (continuation duplication)')
+        if reasons:
+            ok[fname] = False
+            status = 2
+            remove_stale(outs[fname])
+            for r in reasons:
+                sys.stderr.write(f'translate_identify: FAIL: {path}:{r} [{fname}.v is not written]\n')
+            continue
+        ok[fname] = True
+        tmp = outs[fname] + '.tmp'
+        with open(tmp, 'w', encoding='utf-8') as fh:
+            fh.write(text)
+        os.replace(tmp, outs[fname])
+    # failures of nested functions are reported through their enclosing function; report the rest for information
+    for name, why in tr.failures.items():
+        if name not in home or all(name not in t for _, t, _ in FILES):
+            sys.stderr.write(f'translate_identify: note: {name}: {why}\n')
+    return status
 
 
 if __name__ == '__main__':
